@@ -18,6 +18,9 @@ typedef struct {
 	bool compress;
 	bool initialized;
 
+	/* decompressor only: input consumed since the last end of stream */
+	bool mid_stream;
+
 	int level;
 	int work_factor;
 } xfrm_stream_bzip2_t;
@@ -54,9 +57,11 @@ static int process_data(xfrm_stream_t *stream, const void *in, sqfs_u32 in_size,
 	if (flush_mode < 0 || flush_mode >= XFRM_STREAM_FLUSH_COUNT)
 		flush_mode = XFRM_STREAM_FLUSH_NONE;
 
-	while ((in_size > 0 || (bzip2->compress &&
-				flush_mode == XFRM_STREAM_FLUSH_FULL)) &&
+	while ((in_size > 0 || (flush_mode == XFRM_STREAM_FLUSH_FULL &&
+				(bzip2->compress || bzip2->mid_stream))) &&
 	       out_size > 0) {
+		bool at_eof = (in_size == 0);
+
 		bzip2->strm.next_in = (char *)in;
 		bzip2->strm.avail_in = in_size;
 
@@ -81,12 +86,23 @@ static int process_data(xfrm_stream_t *stream, const void *in, sqfs_u32 in_size,
 		in_size -= diff;
 		*in_read += diff;
 
+		if (diff > 0)
+			bzip2->mid_stream = true;
+
 		diff = (out_size - bzip2->strm.avail_out);
 		out = (char *)out + diff;
 		out_size -= diff;
 		*out_written += diff;
 
+		/* the input ended in the middle of a compressed stream */
+		if (!bzip2->compress && at_eof && diff == 0 &&
+		    ret != BZ_STREAM_END) {
+			return XFRM_STREAM_ERROR;
+		}
+
 		if (ret == BZ_STREAM_END) {
+			bzip2->mid_stream = false;
+
 			if (bzip2->compress) {
 				BZ2_bzCompressEnd(&bzip2->strm);
 			} else {
